@@ -170,14 +170,20 @@ pub fn shape(name: &str, n: usize) -> Option<String> {
         "lazy_opt_groups" => rep("(a)??", n),
         "lookbehind_groups" => format!("(?<={})", rep("(a)", n)),
         "sibling_nested_classes" => rep("[[a]]", n),
+        "sibling_nested_negclasses" => format!("{}(?:x)", rep("[[^a]]", n)),
+        "nested_negclass_list" => format!("[{}]", rep("[^a]", n)),
+        // duplicate names far apart: n empty groups / n alternatives between the two occurrences
+        "dup_named_same_path_far" => format!("(?:(?<a>x)|q){}(?:w|(?<a>y))", rep("(?:)", n)),
+        "dup_named_alternatives_far" => format!("(?<a>x){}|(?<a>y)", rep("|b", n)),
+        "dup_named_conflict_far" => format!("(?<a>x){}(?<a>y)", rep("(?:b)", n)),
         "nested_class_list" => format!("[{}]", rep("[a]", n)),
         "sibling_groups_in_group" => format!("({})", rep("(?:a)", n)),
         _ => return None,
     })
 }
 
-pub const SHAPES: [&str; 43] = [
-    "nest_named", "nest_noncap_named", "sibling_nested_classes", "nested_class_list", "sibling_groups_in_group",
+pub const SHAPES: [&str; 48] = [
+    "sibling_nested_negclasses", "nested_negclass_list", "dup_named_same_path_far", "dup_named_alternatives_far", "dup_named_conflict_far", "nest_named", "nest_noncap_named", "sibling_nested_classes", "nested_class_list", "sibling_groups_in_group",
     "alt", "alt_in_group", "alt_groups", "nest_capture", "nest_noncap", "nest_lookahead", "nest_lookbehind", "nest_modifier", "nest_class", "nest_quant", "unbalanced_open", "unbalanced_close", "unbalanced_bracket", "stars", "groups", "named_groups", "dup_named_backref",
     "backrefs", "count_exact", "count_range", "count_group", "count_digits", "count_digits_range", "count_nested", "count_nested_big", "rgi_emoji", "prop_any", "literal", "literal_lookbehind", "literal_icase", "class_members", "class_ranges", "class_qstrings", "class_subtract",
     "escapes", "lazy_opt_groups", "lookbehind_groups", "alt",
